@@ -40,8 +40,10 @@ def _sig(path):
 
 
 class Recorder(pl.Callback):
-    def __init__(self, params, crash_at=None, watch=None, record_opt=True):
+    def __init__(self, params, crash_at=None, watch=None, record_opt=True, probe=None):
         self.params = params
+        self.probe = probe                # optional module whose state_dict() is cloned at every boundary
+        self.probe_states = []            # [(hook, global_step, {key: tensor})]
         self.crash_at = crash_at
         self.watch = watch or {}          # {label: path} files to copy whenever they change
         self.record_opt = record_opt
@@ -72,6 +74,11 @@ class Recorder(pl.Callback):
             return (W.lbfgs_state(opt), [float(g["lr"]) for g in opt.param_groups])
         return W.canon_opt_state(opt, self.params)
 
+    def _probe(self, hook, trainer):
+        if self.probe is not None:
+            self.probe_states.append((hook, int(trainer.global_step),
+                                      {k: v.detach().clone() for k, v in self.probe.state_dict().items()}))
+
     def _check_files(self, hook, trainer):
         for label, path in self.watch.items():
             s = _sig(path)
@@ -92,11 +99,13 @@ class Recorder(pl.Callback):
                     ids.add(id(p))
         self.opt_param_ids = ids
         self.train_start_state = self._state()
+        self._probe("train_start", trainer)
         self._check_files("train_start", trainer)
 
     def on_train_batch_start(self, trainer, m, batch, batch_idx):
         self.events.append(("bs", int(batch_idx), int(trainer.global_step)))
         self.start_states[int(trainer.global_step)] = self._state()
+        self._probe("batch_start", trainer)
         self._check_files("batch_start", trainer)
 
     def on_train_batch_end(self, trainer, m, outputs, batch, batch_idx):
@@ -106,6 +115,7 @@ class Recorder(pl.Callback):
         o = self._opt(trainer)
         if o is not None:
             self.end_opt[gs] = o
+        self._probe("batch_end", trainer)
         self._check_files("batch_end", trainer)
         if self.crash_at is not None and gs == self.crash_at:
             self.crashed = True
@@ -128,6 +138,7 @@ class Recorder(pl.Callback):
     def on_train_end(self, trainer, m):
         self.events.append(("train_end", int(trainer.global_step)))
         self.train_end_state = self._state()
+        self._probe("train_end", trainer)
         self._check_files("train_end", trainer)
 
 
@@ -158,7 +169,7 @@ def optimizer_setting(spec):
         s = o["sched"]
         kw = dict(scheduler_class=W.sched_class(s["cls"]), scheduler_args=dict(s["args"]),
                   scheduler_frequency=int(s.get("freq", 1)))
-    return tp.OptimizerSetting(W.opt_class(o["cls"]), lr=o["lr"], optimizer_args=dict(o.get("args", {})), **kw)
+    return tp.OptimizerSetting(W.opt_class(o["cls"]), lr=o["lr"], optimizer_args=W.opt_args(o), **kw)
 
 
 def trainer_kwargs(spec, steps):
@@ -182,7 +193,7 @@ class RealRun:
 
 
 def run_real(spec, steps, lib_callbacks=None, ckpt_path=None, crash_at=None, watch=None, world=None,
-             record_opt=True):
+             record_opt=True, probe=None):
     """Build a fresh world, train it `steps` steps through Solver + Trainer.  `lib_callbacks(world)` returns the
     library callbacks to install (before the harness recorder).  Exceptions other than SimulatedCrash propagate."""
     import torchphysics as tp
@@ -195,10 +206,14 @@ def run_real(spec, steps, lib_callbacks=None, ckpt_path=None, crash_at=None, wat
     r.theta0 = W.clone_state(r.params)
     rec = Recorder(r.params, crash_at=crash_at, watch=watch, record_opt=record_opt)
     r.rec = rec
+    r.trainer = None
     handles = hook_conditions(w, rec.events)
     try:
         solver = tp.solver.Solver(w.train, w.val, optimizer_setting=optimizer_setting(spec))
         r.solver = solver
+        if probe is not None:
+            rec.probe = probe(w, solver)
+            r.probe_before = {k: v.detach().clone() for k, v in rec.probe.state_dict().items()}
         cbs = list(lib_callbacks(w, solver) if lib_callbacks else [])
         r.lib_callbacks = cbs
         trainer = pl.Trainer(callbacks=cbs + [rec], **trainer_kwargs(spec, steps))
@@ -212,6 +227,8 @@ def run_real(spec, steps, lib_callbacks=None, ckpt_path=None, crash_at=None, wat
             h.remove()
     r.global_step = int(trainer.global_step)
     r.final = W.clone_state(r.params)
+    if probe is not None:
+        r.probe_after = {k: v.detach().clone() for k, v in rec.probe.state_dict().items()}
     r.opt = trainer.optimizers[0] if trainer.optimizers else None
     if r.opt is not None:
         if isinstance(r.opt, torch.optim.LBFGS):
